@@ -52,6 +52,22 @@ pub fn match_subsequence(log: &[Vec<u8>], expect: &[Vec<u8>]) -> Result<usize, u
     }
     Ok(log.len() - expect.len())
 }
+/// number of offsets reachable from 0 by sums of `sizes` without exceeding `max` (independent count of the
+/// states a confluence machine must find when the property holds: one per reachable offset)
+pub fn reachable_offsets(sizes: &[usize], max: usize) -> usize {
+    let mut r = vec![false; max + 1];
+    r[0] = true;
+    for o in 0..=max {
+        if r[o] {
+            for &s in sizes {
+                if s > 0 && o + s <= max {
+                    r[o + s] = true;
+                }
+            }
+        }
+    }
+    r.iter().filter(|x| **x).count()
+}
 /// first index where two byte strings differ
 pub fn first_diff(a: &[u8], b: &[u8]) -> Option<usize> {
     if a.len() != b.len() {
